@@ -34,6 +34,7 @@ def run(ctx):
     r4_one_predicate(ctx)
     r6_cancel_bookkeeping(ctx)
     r7_signature_search(ctx)
+    r10_preamble_provenance(ctx)
     c07.r1_validator(ctx)   # recorded as R1 of this property: validated before any read
     ctx.alias = {'R2': 'R9'}
     c07.r2_arithmetic(ctx)  # the stage bounds the excerpt and the signature search both use
@@ -392,3 +393,108 @@ def r7_signature_search(ctx):
         okl = vf == ('atom', want)
     ctx.check(okl and len(seen) == 1, 'R7', f.loc, f.qualname, 'children-searched', 'every child is searched one stage further; the first hit returns True',
               f'the recursion does not search every child with (from + 1, to): {seen[:2]}')
+
+
+# --------------------------------------------------------------------------- R10: the preamble is made of the spines alive at from_stage
+_DEAD_MARKS = ('header_stage', 'get_header_stage', 'get_header_nodes', 'stages[0]')
+
+
+def r10_preamble_provenance(ctx):
+    """Every node whose token is printed ahead of the excerpt body (recovered header row, recovered spine operators, signature rows)
+    is reached from the nodes of from_stage - the node itself, an ancestor (.parent chain), or an entry of its signature context.
+    A row built from the header stage of the document lists spines that may have ended before the excerpt: its cell count
+    then differs from every other row of the excerpt."""
+    es = ctx.prog.func(f'{EXP}.export_string')
+    parent = {}
+    for n in ast.walk(es.node):
+        for c in ast.iter_child_nodes(n):
+            parent[c] = n
+
+    def binder_iter(name_node):
+        """iterable expression of the loop / comprehension that binds the name at this use"""
+        cur = name_node
+        while cur in parent:
+            cur = parent[cur]
+            if isinstance(cur, ast.For) and isinstance(cur.target, ast.Name) and cur.target.id == name_node.id:
+                return cur.iter
+            if isinstance(cur, (ast.ListComp, ast.GeneratorExp, ast.SetComp)):
+                for g in cur.generators:
+                    if isinstance(g.target, ast.Name) and g.target.id == name_node.id:
+                        return g.iter
+        return None
+
+    def values_of(name):
+        vals, elems = [], []
+        for n in walk_local(es.node):
+            if isinstance(n, ast.Assign) and any(isinstance(t, ast.Name) and t.id == name for t in n.targets):
+                vals.append(n.value)
+            if isinstance(n, ast.Call) and isinstance(n.func, ast.Attribute) and isinstance(n.func.value, ast.Name) \
+                    and n.func.value.id == name and n.func.attr in ('append', 'insert') and n.args:
+                elems.append(n.args[-1])
+        return vals, elems
+
+    def alive_elem(e, seen):
+        """an element expression: a node of an alive collection or its parent"""
+        while isinstance(e, ast.Attribute) and e.attr == 'parent':
+            e = e.value
+        if isinstance(e, ast.Name):
+            it = binder_iter(e)
+            return alive(it, seen) if it is not None else None
+        return None
+
+    def stage_index_ok(ix):
+        if isinstance(ix, ast.Name):
+            vals, _ = values_of(ix.id)
+            if vals and all('measure_start_tree_stages[' in src(v) and 'from_measure' in src(v) for v in vals if src(v) != '0'):
+                return True
+        return False
+
+    def alive(e, seen):
+        """True: reached from the nodes of from_stage; False: positively something else; None: not followed"""
+        t = src(e)
+        if any(m in t for m in _DEAD_MARKS):
+            return False
+        if isinstance(e, ast.Subscript) and src(e.value) == 'document.tree.stages':
+            return True if stage_index_ok(e.slice) else None
+        if isinstance(e, ast.Name):
+            if e.id in seen:
+                return True       # coinductive: the collection is rebuilt from itself (the walk up the ancestors)
+            seen = seen | {e.id}
+            vals, elems = values_of(e.id)
+            res = []
+            for v in vals:
+                if isinstance(v, ast.List) and not v.elts:
+                    continue
+                if isinstance(v, (ast.ListComp, ast.GeneratorExp)) and len(v.generators) == 1:
+                    res.append(alive_elem(v.elt, seen))
+                else:
+                    res.append(alive(v, seen))
+            res += [alive_elem(x, seen) for x in elems]
+            if not res or any(r is None for r in res):
+                return False if any(r is False for r in res) else None
+            return all(res)
+        if isinstance(e, ast.Call) and isinstance(e.func, ast.Attribute) and e.func.attr == 'values' \
+                and src(e.func.value).endswith('.last_signature_nodes.nodes'):
+            base = e.func.value.value.value
+            return alive_elem(base, seen)
+        if isinstance(e, ast.Call) and isinstance(e.func, ast.Name) and e.func.id in ('list', 'reversed', 'tuple', 'iter') and len(e.args) == 1:
+            return alive(e.args[0], seen)
+        return None
+
+    calls = [n for n in walk_local(es.node) if isinstance(n, ast.Call) and src(n.func) == 'self.export_token' and n.args]
+    n_ok = 0
+    for c in calls:
+        a = c.args[0]
+        if not isinstance(a, ast.Name):
+            raise AnalysisError(f'{es.module.relpath}:{c.lineno}: the node handed to export_token in the excerpt preamble is not followed')
+        it = binder_iter(a)
+        r = alive(it, frozenset()) if it is not None else None
+        if r is None:
+            raise AnalysisError(f'{es.module.relpath}:{c.lineno}: where `{a.id}` of export_token({a.id}, ...) comes from is not followed '
+                                f'(`{src(it)[:80] if it is not None else "?"}`)')
+        n_ok += 1
+        ctx.check(r, 'R10', f'{es.module.relpath}:{c.lineno}', es.qualname, 'preamble-cell-not-from-living-spines',
+                  f'export_token({a.id}, ...) in the preamble prints a node reached from the nodes of from_stage (itself, an ancestor, or its signature context)',
+                  f'export_token({a.id}, ...) prints nodes taken from `{src(it)[:100]}`, not from the ancestors of the nodes of from_stage: a spine '
+                  f'that ended before the excerpt still gets a cell in that row, so the row has more cells than every other row of the excerpt')
+    ctx.expect_count('R10', 'export_token calls in the excerpt preamble', n_ok, 3)
